@@ -108,7 +108,7 @@ class Check:
     def finish(self):
         """write evidence + replay files, print the contract lines, return the exit code"""
         known, fixed = load_known()
-        evid_dir = os.path.join(VERIF, "evidence")
+        evid_dir = os.environ.get("VERIF_EVIDENCE_DIR") or os.path.join(VERIF, "evidence")
         replay_dir = os.path.join(evid_dir, "replay")
         os.makedirs(replay_dir, exist_ok=True)
         # remove stale replay files of this property
